@@ -4,8 +4,6 @@ from __future__ import annotations
 from datetime import datetime
 from typing import cast
 
-import construct  # type: ignore
-
 from han import aidon, dlde, kaifa, kamstrup
 from han.common import MeterMessageBase
 
@@ -64,7 +62,7 @@ class AutoDecoder:
                 decoded = decoder(payload)
                 self.__previous_success = index
                 return decoded
-            except (construct.ConstructError, ValueError):
+            except Exception:  # pylint: disable=broad-except
                 pass
 
         return None
@@ -98,7 +96,7 @@ class AutoDecoder:
                 )
                 self.__previous_success = index
                 return decoded
-            except (construct.ConstructError, ValueError):
+            except Exception:  # pylint: disable=broad-except
                 pass
 
         return None
